@@ -5,9 +5,12 @@ C11 — key-exchange answer encryption helpers: `crypto.GuessDataWithHash`, `cry
 
 Regenerated (`TdModel.Facts.C11`): the variable the nil test of `DecryptExchangeAnswer` reads
 (`nilTestVar`, defect D4), the number of padding lengths tried (`guessTries`), the translated
-`paddedLen16`.  `sha1.Size = 20`.  Keys are 32 bytes and IVs 32 bytes in every caller
-(`crypto.TempAESKeys`); other key lengths are answered `cipher` (AES-128/192 keys are outside this
-model), a wrong IV length makes `ige` panic and is outside the property's quantifier.  Core Lean only.
+`paddedLen16`, the conditions and slice bounds of `GuessDataWithHash` as Lean definitions
+(`guessTooShort`, `guessEnd`, `guessHashLen`, `guessDataLo`, `guessDataHi`).  `sha1.Size = 20`.
+Key lengths other than 16/24/32 are the `cipher` error of `aes.NewCipher`; an IV whose length is not
+32 makes `ige` panic (`panicIV`, explicit outcome; callers always pass `TempAESKeys`' 32 bytes).  The
+block cipher is the parameter `P.aesEnc/aesDec key` for every accepted key length (the executable
+instance is AES-256 only).  Core Lean only.
 -/
 import TdModel.Model.C06
 import TdModel.Model.C04Ige
@@ -23,20 +26,23 @@ def sha1Size : Nat := 20
 def guessFrom (P : Prims) (d : Bytes) : Nat → Nat → Option Bytes
   | 0, _ => none
   | fuel + 1, i =>
-    if d.length - i < sha1Size then none
+    if Facts.C11.guessEnd d.length i then none
     else
-      let data := slice d sha1Size (d.length - i)
-      if P.sha1 data == d.take sha1Size then some data else guessFrom P d fuel (i + 1)
+      let data := slice d Facts.C11.guessDataLo (Facts.C11.guessDataHi d.length i)
+      if P.sha1 data == d.take Facts.C11.guessHashLen then some data else guessFrom P d fuel (i + 1)
 
 /-- `crypto.GuessDataWithHash`; `none` is Go's `nil`. -/
 def guess (P : Prims) (d : Bytes) : Option Bytes :=
-  if d.length ≤ sha1Size then none else guessFrom P d Facts.C11.guessTries 0
+  if Facts.C11.guessTooShort d.length then none else guessFrom P d Facts.C11.guessTries 0
 
 inductive Err where
   | cipher
   | align
   | guess
   | rand
+  /-- `ige.checkIV` panics when `len(iv) ≠ 2·BlockSize` (documented contract of gotd/ige); every
+  caller passes the 32-byte IV of `TempAESKeys`. -/
+  | panicIV
   deriving DecidableEq, Repr
 
 def Err.tag : Err → String
@@ -44,14 +50,19 @@ def Err.tag : Err → String
   | .align => "align"
   | .guess => "guess"
   | .rand => "rand"
+  | .panicIV => "panic-iv"
+
+/-- `aes.NewCipher` accepts exactly AES-128/192/256 keys. -/
+def aesKeyOk (key : Bytes) : Bool := key.length == 16 || key.length == 24 || key.length == 32
 
 /-- `crypto.DecryptExchangeAnswer(data, key, iv)`.  The result `.ok none` is Go's `(nil, nil)`.
 `dataIsNil` tells whether the *input* slice was nil: the unrepaired code tested the input instead of
 the guessed data (which variable is tested is regenerated from the source). -/
 def decryptAnswerWith (testVar : String) (P : Prims) (data key iv : Bytes) (dataIsNil : Bool) :
     Except Err (Option Bytes) :=
-  if key.length ≠ 32 then .error .cipher
+  if !aesKeyOk key then .error .cipher
   else if data.length % 16 ≠ 0 then .error .align
+  else if iv.length ≠ 32 then .error .panicIV
   else
     let dataWithHash := Ige.dec (P.aesDec key) iv data
     let dst := guess P dataWithHash
@@ -75,10 +86,10 @@ def dataWithHash (P : Prims) (data rnd : Bytes) : Except Err Bytes :=
 
 /-- `crypto.EncryptExchangeAnswer(rand, answer, key, iv)`. -/
 def encryptAnswer (P : Prims) (rnd answer key iv : Bytes) : Except Err Bytes :=
-  if key.length ≠ 32 then .error .cipher
+  if !aesKeyOk key then .error .cipher
   else
     match dataWithHash P answer rnd with
     | .error e => .error e
-    | .ok awh => .ok (Ige.enc (P.aesEnc key) iv awh)
+    | .ok awh => if iv.length ≠ 32 then .error .panicIV else .ok (Ige.enc (P.aesEnc key) iv awh)
 
 end TdModel.C11
